@@ -1086,8 +1086,18 @@ func (sc *scanner) scanNumber(val *tokenValue, c rune) Token {
 		val.bigInt = nil
 		if len(s) > 2 && s[0] == '0' && (s[1] == 'o' || s[1] == 'O') {
 			val.int, err = strconv.ParseInt(s[2:], 8, 64)
+			if err != nil {
+				if n, ok := new(big.Int).SetString(s[2:], 8); ok {
+					val.bigInt, err = n, nil
+				}
+			}
 		} else if len(s) > 2 && s[0] == '0' && (s[1] == 'b' || s[1] == 'B') {
 			val.int, err = strconv.ParseInt(s[2:], 2, 64)
+			if err != nil {
+				if n, ok := new(big.Int).SetString(s[2:], 2); ok {
+					val.bigInt, err = n, nil
+				}
+			}
 		} else {
 			val.int, err = strconv.ParseInt(s, 0, 64)
 			if err != nil {
